@@ -174,11 +174,47 @@ def run(res):
                 res.violation("RPU file written by the editor: %d entries read back for %d written, or their bytes differ (start code emulation inside an entry)" % (len(got), len(seam)), rp)
             elif outd != b"".join(b"\x00\x00\x00\x01" + R.escape(raw) for key, raw in seam):
                 res.violation("RPU file written by the editor is not the canonical escaping of its entries", rp)
+    # ---- the other NAL the tool re-escapes: a prefix SEI rewritten under --drop-hdr10plus. Messages holding 00 00 0x in
+    # front of, and behind, the removed HDR10+ message: the written file must split into the NALs that were written
+    from .. import streamgen as S
+    from .. import hevc as H
+    r5 = C.rng(res.seed, "c13-sei")
+    w5 = cli.Work("c13sei")
+    nsei = 0
+    for k in range(4 if res.tier == "quick" else 40):
+        frames = S.gen_frames(r5, 2, el=False, eos_mid=False)
+        zero_rich = lambda n: bytes(r5.choice([0, 0, 0, 1, 2, 3, 0x80, 0xFF]) for _ in range(n))
+        before = [(5, bytes(range(16, 32)) + b"\x00\x00\x01\x07\x00\x00\x03\x00\x00\x02" + zero_rich(r5.choice([4, 12, 30])) + b"\x55")]
+        after = [(r5.choice([1, 137, 144]), zero_rich(r5.choice([3, 9, 24])) + b"\x11")] if r5.random() < 0.6 else []
+        msgs = before + [(4, H.hdr10plus_payload(r5, r5.choice([8, 20, 60])))] + after
+        f0 = frames[0]
+        pos = next((i for i, x in enumerate(f0) if x.type <= 21), len(f0))
+        f0.insert(pos, S.SNal(H.sei_nal(msgs)))
+        nals = S.flatten(frames)
+        data = S.stream_bytes(r5, nals, sc="four", tz_prob=0)
+        inp = w5.write("in.hevc", data)
+        outp = w5.path("out.hevc")
+        if os.path.exists(outp):
+            os.remove(outp)
+        ec, txt = cli.run(["--drop-hdr10plus", "convert", inp, "-o", outp], w5.dir)
+        nsei += 1
+        rp = {"op": "convert --drop-hdr10plus", "stream_hex": data.hex()}
+        if ec != "0":
+            res.violation("convert --drop-hdr10plus exits %s on a stream with a multi-message prefix SEI" % ec, rp)
+            continue
+        want = [(H.sei_nal(before + after) if i == f0[pos] else i.data).rstrip(b"\x00") for i in nals]
+        got = [x.rstrip(b"\x00") for x in R.split_annexb(w5.read("out.hevc") or b"")]
+        bad = next((g for g in got if forbidden(g) is not None), None)
+        if bad is not None:
+            res.violation("a NAL of the file written by convert --drop-hdr10plus contains a forbidden sequence: ...%s" % bad[:40].hex(), rp)
+        elif got != want:
+            res.violation("the file written by convert --drop-hdr10plus does not split into the NALs that were written (%d for %d)" % (len(got), len(want)), rp)
+    res.coverage["rewritten_sei_streams"] = nsei
     res.coverage.update({
         "nal_writer_cases": len(seam), "nal_writer_kinds": kinds,
         "evaluations": len(lines_e) + len(lines_u) + 2 * len(seam),
         "distinct_nontrivial": nontriv,
-        "rule": "all strings of length <= %d over {00,01,02,03,04,FF} behind 0x19 (exhaustive), 00 00 0x triples at every position 0..39 of 48-byte payloads, random zero-rich payloads; the call sites: valid RPUs steered (by a CRC search over the bytes before the CRC) to need an escape at / across the seam between data and CRC-32 or inside the CRC, and RPUs followed by 1..7 zero bytes, written by write_hevc_unspec62_nalu (against Rpu.v and the reference escaper) and into an RPU file by `editor {}`; non-trivial = escaping changes the string (distinct inputs by construction)" % maxlen,
+        "rule": "all strings of length <= %d over {00,01,02,03,04,FF} behind 0x19 (exhaustive), 00 00 0x triples at every position 0..39 of 48-byte payloads, random zero-rich payloads; the call sites: valid RPUs steered (by a CRC search over the bytes before the CRC) to need an escape at / across the seam between data and CRC-32 or inside the CRC, and RPUs followed by 1..7 zero bytes, written by write_hevc_unspec62_nalu (against Rpu.v and the reference escaper) and into an RPU file by `editor {}`; prefix SEI NALs rewritten by convert --drop-hdr10plus with 00 00 0x patterns in front of and behind the removed message (file split independently); non-trivial = escaping changes the string (distinct inputs by construction)" % maxlen,
         "exhaustive": True,
         "exhaustive_space": "strings of length <= %d over a 6-byte alphabet: %d cases" % (maxlen, len(cases)),
         "disagreements": nd,
